@@ -224,6 +224,37 @@ def check_unbound_composite(ctx):
                     "silently answers instead of reporting the misuse")
         else:
             ctx.ok("C09.1", f.qualname, f"unbound `{norm(a.value.slice)}` in a composite -> AnnotationError")
+        # every name of the composite is looked up: no iteration of the names loop leaves (break) or moves on (continue) before the lookup --
+        # a name that is skipped is never reported as unbound
+        loops = [lp for lp in ast.walk(f.node) if isinstance(lp, (ast.For, ast.While)) and any(x is t for b_ in lp.body for x in ast.walk(b_))]
+        if loops:
+            lp = loops[-1]  # the innermost loop that contains the lookup
+            gg = NoReturn(m).cfg(f)
+            hdr = next((n_ for n_ in gg.live_nodes() if n_.kind in ("for", "while") and (n_.ast is lp or n_.ast is getattr(lp, "test", None))), None)
+            look = next((n_ for n_ in gg.live_nodes() if n_.ast is a), None)
+            if hdr is not None and look is not None:
+                start = [s_ for k_, s_ in hdr.succ if k_ in ("loop", "t")]
+                skipping = None
+                if start:
+                    seen_ = set()
+                    work_ = [start[0]]
+                    while work_ and skipping is None:
+                        n_ = work_.pop()
+                        if n_.id in seen_ or n_ is look:
+                            continue
+                        seen_.add(n_.id)
+                        for k_, s_ in n_.succ:
+                            if k_ in ("brk", "cont") or s_ is hdr:
+                                skipping = n_
+                                break
+                            if k_ in ("n", "t", "f", "loop", "done"):
+                                work_.append(s_)
+                if skipping is not None:
+                    ctx.bad("C09.1", f, skipping.ast if skipping.ast is not None else lp, f"an iteration of the loop over the names of a composite structure can end (`{skipping.text()[:50]}`) before "
+                            f"`{norm(a.value)}` is looked up: a name that is not bound yet is then not reported with AnnotationError, the check silently answers",
+                            construct="composite names loop skips a lookup")
+                else:
+                    ctx.ok("C09.1", f.qualname, "every iteration of the names loop reaches the lookup")
     # nothing on the way swallows it: handlers in _check / the leaf predicate
     h = ExcHierarchy(m)
     need(not h.is_sub("AnnotationError", "TypeError"), "AnnotationError became a TypeError")
@@ -617,6 +648,22 @@ def check_mode_table(ctx):
                 and any(isinstance(y, ast.Return) and isinstance(y.value, ast.Constant) and y.value.value is False for y in i_.body):
             verdict_vars.add(i_.test.operand.id)
 
+    def cmp_kind(n):
+        """which of the three comparisons this node evaluates (P: the tree_map that raises; S: the test over the bottom-layer pieces;
+        E: structure vs composed structure)"""
+        a_ = n.ast
+        if a_ is None or n.kind not in ("stmt", "test"):
+            return None
+        t_ = norm(a_)
+        if n.kind == "stmt" and any(isinstance(c_, ast.Call) and norm(c_.func).split(".")[-1] == "tree_map" for c_ in ast.walk(a_)) and any(k in ("e", "ValueError") for k, _ in n.succ):
+            return "P"
+        if ("any(" in t_ or "all(" in t_) and ("has_structure" in t_ or "dummy_leaves" in t_ or "tree_leaves" in t_ or "tree_structure" in t_):
+            return "S"
+        for x in ast.walk(a_):
+            if isinstance(x, ast.Compare) and len(x.ops) == 1 and isinstance(x.ops[0], (ast.Eq, ast.NotEq)) and {norm(x.left), norm(x.comparators[0])} == {"structure", "named_structure"}:
+                return "E"
+        return None
+
     def event_of(n):
         a_ = n.ast
         if n.kind == "stmt" and isinstance(a_, ast.Assign) and len(a_.targets) == 1 and isinstance(a_.targets[0], ast.Name):
@@ -628,6 +675,7 @@ def check_mode_table(ctx):
 
     by_id = {id(x): x for x in ast.walk(f.node)}
     table = {}
+    uncompared = {}
     for mode, lead, trail in (("leading", True, None), ("trailing", False, True), ("neither", False, False)):
         def atom(e, lead=lead, trail=trail):
             v_ = env_truth(e)
@@ -651,6 +699,11 @@ def check_mode_table(ctx):
 
         outs = simulate(g, starts[0], stop, lambda n: eval_bool(n.ast, atom), may_raise, event_of, limit=20000, bool_values=atom, for_exits=True)
         need(outs, "C09.4: the composite branch has no path")
+        # a second walk that stops at the first comparison: a path that reaches the leaves (or accepts) without meeting one
+        outs2 = simulate(g, starts[0], lambda n: stop(n) or cmp_kind(n) is not None, lambda n: eval_bool(n.ast, atom), may_raise, None, limit=20000, bool_values=atom, for_exits=True)
+        for o in outs2:
+            if o.end.id in leaf_loops or (o.end.kind == "return" and isinstance(o.end.ast.value, ast.Constant) and o.end.ast.value.value is True):
+                uncompared.setdefault(mode, o)
         sites, drops = set(), set()
         for o in outs:
             ds = tuple(e[5:] for e in o.events if e.startswith("drop:"))
@@ -687,6 +740,20 @@ def check_mode_table(ctx):
         x = by_id[next(iter(table["neither"][0]))]
         ctx.bad("C09.4", f, x, f"exact mode does not reject exactly when the tree's structure differs from the composed structure: it compares only `.{weak[0][7:]}` of the two")
         return
+    # no mode lets a structure through without comparing it at all
+    if uncompared and any(cmp_kind(n_) for n_ in g.live_nodes()):
+        for mode, o in sorted(uncompared.items()):
+            tests = [n_ for n_ in (o.path or ()) if getattr(n_, "kind", None) == "test"]
+            under = f" (last test on that path: `{short(tests[-1].ast, 60)}`)" if tests else ""
+            looks = [t_ for t_ in tests if any(isinstance(x, ast.Name) and x.id in ("named_structure", "structure", "prev_structure") for x in ast.walk(t_.ast))]
+            if looks:
+                # a short cut guarded by a condition on the structures themselves: sound for some conditions (the bound structure is one
+                # leaf: a prefix and a suffix of everything), unsound for others (`treedef_is_leaf` is also true of empty containers) --
+                # that is a property of tree values
+                raise AnalysisError(f"C09.4: with {mode + ' `...`' if mode != 'neither' else 'no `...`'} a path reaches the leaves without any of the three comparisons, guarded by "
+                                    f"`{short(looks[-1].ast, 70)}`: whether that condition implies the comparison is value-level and cannot be decided statically")
+            ctx.bad("C09.4", f, tests[-1].ast if tests else first_test, f"with {mode + ' `...`' if mode != 'neither' else 'no `...`'} a path goes on to the leaves without having compared the tree's "
+                    f"structure with the composed structure in any way{under}: every tree is accepted on it", construct=f"composite structure accepted uncompared ({mode})")
     if any("?" in v or len(v) != 1 for v in kinds.values()):
         raise AnalysisError(f"C09.4: the composite-structure check has rejection paths the rule does not know ({kinds}; P = tree_map raised, S = a bottom-layer piece is not T, "
                             "E = structures differ): whether an additional early rejection is sound depends on tree values and cannot be decided statically")
